@@ -34,6 +34,40 @@ theorem C05_truncation (t : Ty) (prior : Val) (s : Src) (v : Val) (s' : Src)
       simp at this
       omega
 
+/-- The truncation argument for any reader computation that is stable under appended data. -/
+theorem trunc_of_ext {α} (m : M α) (hm : Ext m) (s : Src) (a : α) (s' : Src)
+    (hc : s.fault = .none) (hd : m s = (.ok a, s')) (hall : s'.bytes = [])
+    (k : Nat) (hk : k < s.bytes.length) :
+    ∃ e s2, m (s.cut k) = (.error e, s2) := by
+  cases hcut : m (s.cut k) with
+  | mk r s2 =>
+    cases r with
+    | error e => exact ⟨e, s2, rfl⟩
+    | ok v2 =>
+      exfalso
+      have hx := (hm (s.cut k) v2 s2 (s.bytes.drop k) hc hcut).1
+      have hs : (s.cut k).ext (s.bytes.drop k) = s := by
+        cases s; simp [Src.cut, Src.ext]
+      rw [hs, hd] at hx
+      have hb : s'.bytes = s2.bytes ++ s.bytes.drop k := by
+        have := congrArg (fun r => r.2.bytes) hx
+        simpa using this
+      rw [hall] at hb
+      have hd0 : s.bytes.drop k = [] := (List.append_eq_nil_iff.1 hb.symm).2
+      have := congrArg List.length hd0
+      simp at this
+      omega
+
+/-- **Truncation of a stream of messages.** If reading `n` values of type `t` back to back
+succeeds and consumes all of the bytes, then reading `n` values from any strict prefix fails:
+a cut anywhere in a sequence of messages — inside any one of them or exactly between two — is
+never reported as `n` successfully decoded messages. -/
+theorem C05_truncation_stream (t : Ty) (n : Nat) (s : Src) (vs : List Val) (s' : Src)
+    (hc : s.fault = .none) (hd : repM n (dec t) s = (.ok vs, s')) (hall : s'.bytes = [])
+    (k : Nat) (hk : k < s.bytes.length) :
+    ∃ e s2, repM n (dec t) (s.cut k) = (.error e, s2) :=
+  trunc_of_ext _ (Ext.repM (ext_decInto t (dflt t)) n) s vs s' hc hd hall k hk
+
 /-- Corollary with C01: every strict prefix of the encoding of a value is rejected. -/
 theorem C05_valid_prefix_rejected (t : Ty) (hwf : t.wf = true) (v : Val) (h : HChan) (bs : Bytes)
     (h' : HChan) (prior : Val) (hv : valid t v = true) (he : encode t v h = .ok (bs, h'))
@@ -44,6 +78,10 @@ theorem C05_valid_prefix_rejected (t : Ty) (hwf : t.wf = true) (v : Val) (h : HC
   have hd := (rt t hwf).decInto prior hv he s [] hc (by simpa using hb) hf hr
   refine C05_truncation t prior s v _ hc hd ?_ k (by rw [hb]; exact hk)
   simp [hb]
+
+/-- non-vacuity of the stream theorem: two messages, six bytes, all consumed -/
+example : repM 2 (dec (.int .u16 .plain)) ({ bytes := [0x81, 0x34, 0x12, 0x81, 0x01, 0x00] } : Src) =
+    (.ok [.int 0x1234, .int 1], { bytes := [] }) := by rfl
 
 /-- non-vacuity: a 3-byte message whose 2-byte prefix is rejected -/
 example : decInto (.int .u16 .plain) (.int 0) ({ bytes := [0x81, 0x34, 0x12] } : Src) =
